@@ -839,4 +839,126 @@ Section Safe.
     - subst vw. apply safe_silent; [apply silent_st_hp|left; intros g; apply hp_st_other; discriminate|].
       intros _. apply safe_ld_hp_got. apply safe_st_hp_free; [exact I|]. intros _. cbn. eauto.
   Qed.
+
+  (** ** client operations, threads *)
+  Definition op_ok (o : op) : Prop :=
+    match o with OEnq _ ord => forall r, perm_ok (ord r) | ODeq ord => forall r, perm_ok (ord r) end.
+
+  Lemma safe_emit {R} t (e : ev) (k : prog R) l (Q : R -> view -> Prop) :
+    (forall g a tr, Inv qf g a tr -> aview a t = l ->
+       exists a', Inv qf g a' (tr ++ [(t, e)]) /\ Conc.frame aview t a a' /\ safe t k (aview a' t) Q) ->
+    safe t (Emit [e] k) l Q.
+  Proof. intros H. exact H. Qed.
+
+  Definition idle_view (k : nat) : view := mkV false k None PIdle.
+  Definition Qop (k : nat) : bool -> view -> Prop := fun r vw => r = true -> vw = idle_view (S k).
+
+  Lemma safe_emit_other {R} t name (k : prog R) l Q :
+    ev_op (EvCli name []) = None -> safe t k l Q -> safe t (Emit [EvCli name []] k) l Q.
+  Proof.
+    intros Hop Hk. apply safe_emit. intros g a tr HI Hv. unfold aview in Hv.
+    exists (upd a t (a t)). split; [|split; [apply frame_upd|]].
+    - apply Inv_emit_other; auto.
+    - rewrite aview_upd_same, Hv. exact Hk.
+  Qed.
+
+  Lemma safe_run_op fuel t k o : op_ok o -> safe t (run_op fuel qf t k o) (idle_view k) (Qop k).
+  Proof.
+    intros Hok. destruct o as [v ord|ord]; cbn [run_op].
+    - apply safe_emit. intros g a tr HI Hv. unfold aview, idle_view in Hv.
+      exists (upd a t (mkV false k None (PEnq (t, k, v) (nalloc g) None [] false))). split; [|split; [apply frame_upd|]].
+      + pose proof (Inv_inv_enq qf g a tr t v HI) as K. rewrite ?Hv in K. cbn [v_hd v_idx v_lock v_ph] in K. apply K. reflexivity.
+      + rewrite aview_upd_same. apply Conc.safe_bind.
+        eapply Conc.safe_weaken; [|apply safe_enqueue; exact Hok].
+        intros [|] vw Hq.
+        * destruct (Hq eq_refl) as (s & vis & ->).
+          apply safe_emit. intros g1 a1 tr1 HI1 Hv1. unfold aview, enq_view in Hv1.
+          exists (upd a1 t (idle_view (S k))). split; [|split; [apply frame_upd|]].
+          -- pose proof (Inv_ret_enq qf g1 a1 tr1 t (t, k, v) (nalloc g) (Some s) vis HI1) as K.
+             rewrite ?Hv1 in K. cbn [v_hd v_idx v_lock v_ph] in K. apply K. reflexivity.
+          -- rewrite aview_upd_same. intros _. reflexivity.
+        * apply safe_emit_other; [reflexivity|]. cbn. discriminate.
+    - apply safe_emit. intros g a tr HI Hv. unfold aview, idle_view in Hv.
+      exists (upd a t (deq_view k (inserted g) None [] false false (hp g t 0) None)). split; [|split; [apply frame_upd|]].
+      + pose proof (Inv_inv_deq qf g a tr t HI) as K. rewrite ?Hv in K. cbn [v_hd v_idx v_lock v_ph] in K. apply K. reflexivity.
+      + rewrite aview_upd_same. apply Conc.safe_bind.
+        eapply Conc.safe_weaken; [|apply safe_dequeue; exact Hok].
+        intros [| |h] vw Hq; cbn in Hq.
+        * apply safe_emit_other; [reflexivity|]. cbn. discriminate.
+        * destruct Hq as (sg & vis & hn & hp0 & cur & ->).
+          apply safe_emit. intros g1 a1 tr1 HI1 Hv1. unfold aview, deq_view in Hv1.
+          exists (upd a1 t (idle_view (S k))). split; [|split; [apply frame_upd|]].
+          -- pose proof (Inv_ret_deq_empty qf g1 a1 tr1 t (inserted g) sg vis hn hp0 cur HI1) as K.
+             rewrite ?Hv1 in K. cbn [v_hd v_idx v_lock v_ph] in K. apply K. reflexivity.
+          -- rewrite aview_upd_same. intros _. reflexivity.
+        * destruct Hq as (x & -> & ->).
+          apply safe_emit. intros g1 a1 tr1 HI1 Hv1. unfold aview in Hv1.
+          exists (upd a1 t (idle_view (S k))). split; [|split; [apply frame_upd|]].
+          -- pose proof (Inv_ret_deq_got qf g1 a1 tr1 t x HI1) as K.
+             rewrite ?Hv1 in K. cbn [v_hd v_idx v_lock v_ph] in K. apply K. reflexivity.
+          -- rewrite aview_upd_same. intros _. reflexivity.
+  Qed.
+
+  Lemma safe_run_ops fuel t : forall os k,
+    Forall op_ok os -> safe t (run_ops fuel qf t k os) (idle_view k) (@Conc.QTrue view).
+  Proof.
+    induction os as [|o r IH]; intros k Hok; cbn [run_ops]; [exact I|].
+    inversion Hok; subst. apply Conc.safe_bind. eapply Conc.safe_weaken; [|apply safe_run_op; assumption].
+    intros [|] vw Hq; [|exact I]. rewrite (Hq eq_refl). apply IH. assumption.
+  Qed.
+
+  Lemma safe_thread fuel t os :
+    Forall op_ok os -> safe t (thread_prog fuel qf t os) (idle_view 0) (@Conc.QTrue view).
+  Proof.
+    intros Hok. unfold thread_prog. apply safe_silent; [apply silent_begin|right; exact I|].
+    intros _. apply safe_run_ops. exact Hok.
+  Qed.
+
+  (** ** the initial configuration *)
+  Definition aux0 : Aux := fun _ => idle_view 0.
+
+  Lemma Inv_init : Inv qf init aux0 [].
+  Proof.
+    split.
+    - split; cbn; try discriminate; auto; try (intros; lia).
+      intros s i H. exfalso. apply H. reflexivity.
+    - split.
+      + intros x [].
+      + intros x (s & i & H). discriminate.
+      + intros x y sx ix sy iy (tr1 & tr2 & E & _ & _ & H). destruct tr1; destruct tr2; cbn in *; try discriminate; try contradiction.
+      + intros t k y [].
+      + intros x H. cbn in H. lia.
+    - intros t. split; cbn; auto; try discriminate. intros t' e k [].
+    - reflexivity.
+    - intros t t' H. cbn in H. congruence.
+    - intros x t t' (rd & E). discriminate.
+    - intros x t (rd & E). discriminate.
+    - intros x (s & i & H). discriminate.
+  Qed.
+
+  Definition prog_ok (ths : list (list op)) : Prop := Forall (Forall op_ok) ths.
+
+  Lemma threads_safe_from fuel : forall ths t0,
+    prog_ok ths ->
+    forall t p, nth_error (thread_progs fuel qf t0 ths) t = Some p -> safe (t0 + t) p (idle_view 0) (@Conc.QTrue view).
+  Proof.
+    induction ths as [|os r IH]; intros t0 Hok t p H; cbn [thread_progs] in H.
+    - destruct t; discriminate.
+    - inversion Hok; subst. destruct t as [|t]; cbn in H.
+      + inversion H; subst. rewrite Nat.add_0_r. apply safe_thread. assumption.
+      + replace (t0 + S t) with (S t0 + t) by lia. apply IH; assumption.
+  Qed.
 End Safe.
+
+(** every reachable configuration satisfies the invariant, for some auxiliary state *)
+Theorem segq_Inv fuel arg ths c :
+  prog_ok (ceil2 arg) ths ->
+  Conc.reach (init_cfg fuel arg ths) c ->
+  exists a, Inv (ceil2 arg) (Conc.shared c) a (Conc.trace c).
+Proof.
+  intros Hok Hr. eapply (Conc.reach_Inv (view := aview)); [|exact Hr].
+  exists (aux0). split.
+  - cbn. apply Inv_init.
+  - intros t p Hp. cbn [init_cfg Conc.threads] in Hp.
+    apply (threads_safe_from (ceil2 arg) fuel ths 0 Hok t p Hp).
+Qed.
